@@ -9,7 +9,7 @@ CHECKS = {
  "C05": dict(
    category="model_checking", engine="A explicit-state product + B small-scope strings",
    technique="explicit-state BFS of the product (real scanner x reference PDA) with validated state merging; exhaustive string enumeration",
-   text="All reachable product states of the real JSON scanner (driven byte-wise through a verif hook) and a reference RFC 8259 pushdown automaton are enumerated for nesting <= 4 (quick) / 6 (thorough) in both modes; in each state the public Document.Check verdict of the state's shortest history must equal the reference verdict, so acceptance is decided for strings of any length within the nesting bound. State merging is validated by recomputing successors of merged histories. In addition every string of <= 5 (6) symbols over the 30-class alphabet is compared three ways, and every single-symbol edit and truncation of a corpus of structured long texts (deep nesting, 4 KiB strings, long numerals). Every product-state text and byte-sweep text is also checked on documents with a history (after a first Check, after Len, after 1, 2, 3, 5 lexemes read with NextLexeme): the verdict must not depend on it; containers of n copies of 12 units for n in 1..10 and around every power of two up to 256, 300, 1000.",
+   text="All reachable product states of the real JSON scanner (driven byte-wise through a verif hook) and a reference RFC 8259 pushdown automaton are enumerated for nesting <= 4 (quick) / 6 (thorough) in both modes; in each state the public Document.Check verdict of the state's shortest history must equal the reference verdict, so acceptance is decided for strings of any length within the nesting bound. State merging is validated by recomputing successors of merged histories. In addition every string of <= 5 (6) symbols over the 30-class alphabet is compared three ways, and every single-symbol edit and truncation of a corpus of structured long texts (deep nesting, 4 KiB strings, long numerals). Every product-state text and byte-sweep text is also checked on documents with a history (after a first Check, after Len, after 1, 2, 3, 5 lexemes read with NextLexeme): the verdict must not depend on it; containers of n copies of 12 units for n in 1..10 and around every power of two up to 256, 300, 1000. One raw character per UTF-8 byte-class combination (and DEL) in values and keys.",
    note="Trusted: the reference PDA (cross-checked against encoding/json on every enumerated string), the hook's control key being a bisimulation (checked on merges). Not asserted: invalid UTF-8; in trailing mode inputs where maximal munch of a top-level number has two readings.",
    design="4/C05"),
 }
@@ -17,26 +17,26 @@ CHECKS = {
 CHECKS["C19"] = dict(
    category="model_checking", engine="A explicit-state over the real maps + C controlled scheduler for the concurrent clause",
    technique="explicit-state BFS to a fixpoint of canonical heap states of the real generated maps, reference insertion-ordered map as oracle",
-   text="Breadth-first search over ALL operation sequences of the 19-operation alphabet (3 keys, 2 values, 4 predicates, failing Map callback) on the real ASTNodes, RuleASTNodes (zero value, New..., Make...) and Constraints objects until no new canonical state (order backing array incl. stale tail, len, data) appears; this covers histories of any length, not only 6. Every observer and every callback visit log is compared with a 30-line reference map in every state; merges are validated by recomputing successors. Concurrent clause (merged from the scheduler variant): all 4-tuples (2 threads x 2 ops) and triples (3 x 1) over a 12-operation alphabet (incl. MarshalJSON, Find, Has) on the three real maps from two initial states, ALL interleavings at lock points, each history checked for linearizability by brute force and by the race detector as per-execution monitor.",
+   text="Breadth-first search over ALL operation sequences of the 19-operation alphabet (3 keys, 2 values, 4 predicates, failing Map callback) on the real ASTNodes, RuleASTNodes (zero value, New..., Make...) and Constraints objects until no new canonical state (order backing array incl. stale tail, len, data) appears; this covers histories of any length, not only 6. Every observer and every callback visit log is compared with a 30-line reference map in every state; merges are validated by recomputing successors. Concurrent clause (merged from the scheduler variant): all 4-tuples (2 threads x 2 ops) and triples (3 x 1) over a 12-operation alphabet (incl. MarshalJSON, Find, Has) on the three real maps from two initial states, ALL interleavings at lock points, each history checked for linearizability by brute force and by the race detector as per-execution monitor. Big maps: every real map filled with n keys (n around slice capacities up to 1025) and emptied in five ways, all observers compared after every operation.",
    note="Trusted: the reference map; the state key is validated as a bisimulation on every merge. Map's behaviour on callback error (earlier entries stay updated) is taken from the generated code's documented contract.",
    design="4/C19")
 CHECKS["C10"] = dict(
    category="exploration", engine="B small-scope enumeration with exact reference",
    technique="exhaustive enumeration of all numerals up to 6/7 chars and all pairs up to 4/5 chars against math/big; greedy reduction of counterexamples to minimal cores",
-   text="Every string of <= 6 (thorough 7) characters over {-,0,1,5,9,.,e,E,+} is classified; every RFC 8259 numeral among them goes through the internal Number (hook) and is compared with math/big on normalised expansion, fractional length and order against a 46-numeral probe set in both directions; all ordered pairs of numerals <= 4 (5) characters are compared; at API level 9 rule forms (float, integer, min, max, exclusive true/false, precision) x all exponent-free bounds <= 4 chars x all numerals <= 5 (6) chars are validated and compared with exact arithmetic; a structured family of long numerals (digit blocks up to 60 digits, exponents to +-400) is compared pairwise. Counterexamples are reduced to minimal cores which identify known findings.",
+   text="Every string of <= 6 (thorough 7) characters over {-,0,1,5,9,.,e,E,+} is classified; every RFC 8259 numeral among them goes through the internal Number (hook) and is compared with math/big on normalised expansion, fractional length and order against a 46-numeral probe set in both directions; all ordered pairs of numerals <= 4 (5) characters are compared; at API level 9 rule forms (float, integer, min, max, exclusive true/false, precision) x all exponent-free bounds <= 4 chars x all numerals <= 5 (6) chars are validated and compared with exact arithmetic; a structured family of long numerals (digit blocks up to 60 digits, exponents to +-400) is compared pairwise. Counterexamples are reduced to minimal cores which identify known findings. Integer-ness decided by the root package (additionalProperties: integer; the public GuessSchemaType) on all numerals; reductions keep the kind of failure and never enter the recorded 0e0 class from outside.",
    note="Trusted: math/big and the 40-line decimal reference. Not asserted: integer-ness of 1.0-style numerals; the internal parser's behaviour on strings that are not RFC numerals.",
    design="4/C10")
 
 CHECKS["C17"] = dict(
    category="exploration", engine="B small-scope exhaustive + BFS over reference PDA states",
    technique="exhaustive enumeration of all file contents up to 7/8 bytes over 5 symbols x all positions against a reference renderer; BFS over reference PDA states for error positions",
-   text="(a) Every file content of length 0..7 (thorough 8) over {a,space,tab,LF,CR} with every position inside it is rendered through the public DocumentError API; no rendering may panic, and for consistently terminated files line number, left-trimmed text and caret column must equal a reference renderer; line-length families around the 200-byte cut. (b) For every reference-PDA state (nesting <= 4/6) and every string <= 4/5 symbols: the error position of the first dead byte and of an early end of input. (c) every rule-free schema <= 3/4 nodes and every depth-5 spine with ONE planted violation at every node (value of another kind, unknown key) plus 14 single-rule breakers in 9 contexts: the reported position is the start of the planted value / key. (e) errors passed through kit.ConvertError keep file, position, code and rendering, for named and unnamed documents. (d) one error value rendered, moved with SetIndex and rendered again must show what a fresh error shows (all contents <= 5/6 bytes x all position pairs).",
+   text="(a) Every file content of length 0..7 (thorough 8) over {a,space,tab,LF,CR} with every position inside it is rendered through the public DocumentError API; no rendering may panic, and for consistently terminated files line number, left-trimmed text and caret column must equal a reference renderer; line-length families around the 200-byte cut. (b) For every reference-PDA state (nesting <= 4/6) and every string <= 4/5 symbols: the error position of the first dead byte and of an early end of input. (c) every rule-free schema <= 3/4 nodes and every depth-5 spine with ONE planted violation at every node (value of another kind, unknown key) plus 14 single-rule breakers in 9 contexts: the reported position is the start of the planted value / key. (e) errors passed through kit.ConvertError keep file, position, code and rendering, for named and unnamed documents. (d) one error value rendered, moved with SetIndex and rendered again must show what a fresh error shows (all contents <= 5/6 bytes x all position pairs). Files of up to 4097 lines with lines of up to 210 bytes (line numbers around powers of ten and two).",
    note="Trusted: the 100-line reference renderer. Not asserted: mixed LF/CR files' line numbers, caret inside leading blanks or on blank-only lines, positions for blank-only input.",
    design="4/C17")
 CHECKS["C01"] = dict(
    category="exploration", engine="B small-scope enumeration with reference shape matcher",
    technique="exhaustive small-scope enumeration of (schema, config, document) triples against a three-valued reference validator; greedy counterexample reduction",
-   text="All rule-free schemas with <= 3 (thorough 4) nodes and every legal flag assignment x all documents with <= 3 (4) nodes (<= 4 (5) for schemas up to 2 nodes) in every key order x both key-optionality configurations, plus depth-5 spines with all documents within 2 structural edits of the example; the library verdict must equal the reference shape matcher, and optional-by-default must equal default with every unmarked key marked optional. A further family places a type-any position before/after siblings in 7 contexts and fills it with 16 nested values (arrays of 0..3 items, arrays in arrays, objects holding arrays) crossed with every variation of the nodes that follow it.",
+   text="All rule-free schemas with <= 3 (thorough 4) nodes and every legal flag assignment x all documents with <= 3 (4) nodes (<= 4 (5) for schemas up to 2 nodes) in every key order x both key-optionality configurations, plus depth-5 spines with all documents within 2 structural edits of the example; the library verdict must equal the reference shape matcher, and optional-by-default must equal default with every unmarked key marked optional. A further family places a type-any position before/after siblings in 7 contexts and fills it with 16 nested values (arrays of 0..3 items, arrays in arrays, objects holding arrays) crossed with every variation of the nodes that follow it. Every document with members is also validated with its keys spelled with \\uXXXX escapes; wide and deep documents (n items / n required properties / n levels, n around every power of two).",
    note="Trusted: the reference validator ref/refv (written from the statement, stdlib only). Not asserted: duplicate keys, numerals other than 1 / 1.5.",
    design="4/C01")
 
@@ -50,7 +50,7 @@ CHECKS["C02"] = dict(
 CHECKS["C08"] = dict(
    category="exploration", engine="B small-scope enumeration, permutation-invariance + reference predicate",
    technique="exhaustive enumeration of rule subsets x parameter variants x ALL permutations; metamorphic order-invariance plus three-valued reference applicability predicate",
-   text="10 node kinds x 3 positions x all subsets of <= 3 (thorough 4) of 18 rule names plus an unknown name and duplicated names x parameter variants, each compiled in every permutation and under both key-optionality configurations (Check asked twice per object): Check's verdict must not depend on the order, and must equal the applicability/consistency predicate written from the statement wherever that predicate is decided; plus scalar examples with rule sets of <= 3 (4) names from the kind's applicable pool with boundary parameters, which supply the well-formed (accept-side) cases.",
+   text="10 node kinds x 3 positions x all subsets of <= 3 (thorough 4) of 18 rule names plus an unknown name and duplicated names x parameter variants, each compiled in every permutation and under both key-optionality configurations (Check asked twice per object): Check's verdict must not depend on the order, and must equal the applicability/consistency predicate written from the statement wherever that predicate is decided; plus scalar examples with rule sets of <= 3 (4) names from the kind's applicable pool with boundary parameters, which supply the well-formed (accept-side) cases. The statement's exclusions inside or rule-sets (format types with length/regex rules, any with const) in every position, with accepted controls.",
    note="Trusted: ref/wf predicate and ref/refv. Error codes are not compared; statement-silent combinations are Unspecified (listed in the evidence assumptions).",
    design="4/C08")
 
@@ -64,7 +64,7 @@ CHECKS["C04"] = dict(
 CHECKS["C14"] = dict(
    category="exploration", engine="B small-scope enumeration of texts x separators x trailing texts",
    technique="exhaustive product of accepted texts x separators x directive-like trailing texts; every truncation classified by the reference PDA",
-   text="Every accepted text of a corpus built from all rule-free JS-core renderings <= 3 (4) nodes in two layouts, annotated and noted variants ending in every token class, type shortcuts, enum texts and every regex token with a body <= 4 symbols over {a, \\, /, .} (acceptance decided by the reference; a rejected corpus text is a violation), followed by each of 9 separators and 11 trailing texts admitted by the statement: Len must be exactly len(S) for schema, JSON document (trailing characters allowed), enum and regex roles, on fresh objects and on objects used before (after Check/GetAST/Values/Pattern, after the document stream was read to its end); every lexically incomplete truncation must make Len fail. Separators are no blank and EVERY run of 1..3 blanks over {space, tab, LF, CRLF}.",
+   text="Every accepted text of a corpus built from all rule-free JS-core renderings <= 3 (4) nodes in two layouts, annotated and noted variants ending in every token class, type shortcuts, enum texts and every regex token with a body <= 4 symbols over {a, \\, /, .} (acceptance decided by the reference; a rejected corpus text is a violation), followed by each of 9 separators and 11 trailing texts admitted by the statement: Len must be exactly len(S) for schema, JSON document (trailing characters allowed), enum and regex roles, on fresh objects and on objects used before (after Check/GetAST/Values/Pattern, after the document stream was read to its end); every lexically incomplete truncation must make Len fail. Separators are no blank and EVERY run of 1..3 blanks over {space, tab, LF, CRLF}. Trailing texts that themselves hold line breaks (a foreign byte, then the next line).",
    note="Trusted: reference PDA for incompleteness. Not generated: trailing text that could continue S; blank-only inputs.",
    design="4/C14")
 
@@ -78,42 +78,42 @@ CHECKS["C06"] = dict(
 CHECKS["C18"] = dict(
    category="exploration", engine="B small-scope enumeration, named-vs-inline differential",
    technique="exhaustive enumeration of enum value lists x layouts and of all compilable regex sources up to 4/5 symbols; metamorphic named == inline == regexp",
-   text="All enum value lists of <= 3 (4) items over 10 literals (duplicates, a string spelling a float, escapes) in 9 layouts (incl. empty comments): the named rule and the inline list must give identical verdicts on 14 probes, duplicates must make the rule's Check fail, Values()/GetAST() must list the literals in source order; one rule object referenced twice in a schema and added to a second schema must behave like the inline list and be unchanged afterwards. All strings <= 4 (5) over a 16-symbol regex alphabet that regexp.Compile accepts: the regex type, the inline {regex} rule and regexp.MatchString must agree on all 156 probe strings <= 3 over {a,b,/,\",\\}; Example() matches the pattern; Len equals the /P/ token length with trailing text. Enum literals include floats with zero digits in the fraction (1.50, 20.05, -0.100).",
+   text="All enum value lists of <= 3 (4) items over 10 literals (duplicates, a string spelling a float, escapes) in 9 layouts (incl. empty comments): the named rule and the inline list must give identical verdicts on 14 probes, duplicates must make the rule's Check fail, Values()/GetAST() must list the literals in source order; one rule object referenced twice in a schema and added to a second schema must behave like the inline list and be unchanged afterwards. All strings <= 4 (5) over a 16-symbol regex alphabet that regexp.Compile accepts: the regex type, the inline {regex} rule and regexp.MatchString must agree on all 156 probe strings <= 3 over {a,b,/,\",\\}; Example() matches the pattern; Len equals the /P/ token length with trailing text. Enum literals include floats with zero digits in the fraction (1.50, 20.05, -0.100). 315 patterns whose matches begin or end with blanks.",
    note="Trusted: Go regexp. The third-party example generator ignores anchors, so 'Example matches P' is asserted only for patterns without inner anchors.",
    design="4/C18")
 
 CHECKS["C09"] = dict(
    category="exploration", engine="B small-scope enumeration of type graphs with a least-fixpoint reference; worker-death = non-termination",
    technique="exhaustive enumeration of all type graphs over 1-3 (4) user types x edge forms x missing-node subsets against a least-fixpoint inhabitation model; process-level crash/hang detection",
-   text="Every type graph over a root (5 forms) and up to 3 (thorough 4) user types whose bodies range over scalar, alias, or-shortcut, array, allOf parent (at the type's root, on an array element, on a property value), additionalProperties type, key shortcut and one/two-slot objects (required / optional / array / or / nested / nullable references), with every subset (quick n=3: every single type) left un-added, plus ring / chain-into-ring / diamond families up to 6 types: Check must fail with 1302 naming a missing type exactly when a reachable type is missing, UsedUserTypes must equal the names in the root text, Check must reject exactly when the least-fixpoint model leaves the root uninhabited and must not report recursion when every type is inhabited, and on every accepted graph Check, Validate and Example must return (a worker death or 40 s without progress is a violation).",
+   text="Every type graph over a root (5 forms) and up to 3 (thorough 4) user types whose bodies range over scalar, alias, or-shortcut, array, allOf parent (at the type's root, on an array element, on a property value), additionalProperties type, key shortcut and one/two-slot objects (required / optional / array / or / nested / nullable references), with every subset (quick n=3: every single type) left un-added, plus ring / chain-into-ring / diamond families up to 6 types: Check must fail with 1302 naming a missing type exactly when a reachable type is missing, UsedUserTypes must equal the names in the root text, Check must reject exactly when the least-fixpoint model leaves the root uninhabited and must not report recursion when every type is inhabited, and on every accepted graph Check, Validate and Example must return (a worker death or 40 s without progress is a violation). UsedUserTypes first asked after Check / Validate / Example / GetAST / Len, on the object itself and on an object serving as added type of a schema used before.",
    note="Trusted: ref/typegraph. Not asserted: graphs whose uninhabited types are not required by the root; which of several problems of one graph is reported first. Known finding: multi-hop required recursion is accepted (pinned by the repository's own TestSchema_Example).",
    design="4/C09")
 
 CHECKS["C03"] = dict(
    category="exploration", engine="B small-scope enumeration of type environments x root constructs x documents",
    technique="exhaustive enumeration of four construct families (type references/or, allOf, additionalProperties, key shortcuts) x all small documents against a three-valued set-semantics reference, plus union differential",
-   text="All ordered pairs of user types from a 10-body pool plus a derived third type (alias, or, nullable alias, nullable or-alias) x 15 root constructs (also rule-sets with nullable next to a type reference) x nullable x 6 positions x all documents <= 3 nodes (all arrays <= 3 elements for array positions); 9 allOf configurations x 4 additionalProperties settings x both configs x all 1024 objects over 5 keys; 13 additionalProperties settings x shapes x 150 objects; 5 key types x optionality x layouts x all objects with <= 3 members over 6 keys. The library verdict must equal the reference union/conjunction semantics and verdict(@A|@B) must equal verdict(@A) or verdict(@B). Nested extension: an extending object owning (directly, as array item, two levels down, through a user type or an heir) a property whose object extends types itself, 5 inner bodies x 7 shapes x all member combinations.",
+   text="All ordered pairs of user types from a 10-body pool plus a derived third type (alias, or, nullable alias, nullable or-alias) x 15 root constructs (also rule-sets with nullable next to a type reference) x nullable x 6 positions x all documents <= 3 nodes (all arrays <= 3 elements for array positions); 9 allOf configurations x 4 additionalProperties settings x both configs x all 1024 objects over 5 keys; 13 additionalProperties settings x shapes x 150 objects; 5 key types x optionality x layouts x all objects with <= 3 members over 6 keys. The library verdict must equal the reference union/conjunction semantics and verdict(@A|@B) must equal verdict(@A) or verdict(@B). Nested extension: an extending object owning (directly, as array item, two levels down, through a user type or an heir) a property whose object extends types itself, 5 inner bodies x 7 shapes x all member combinations. Document keys spelled like type names (@K) and examples holding a shortcut next to a property of the same spelling.",
    note="Trusted: ref/refv. Unspecified (counted in the evidence): cardinality/precedence of shortcut matches, presence of non-optional shortcut entries, rule-less key types, integer under additionalProperties float.",
    design="4/C03")
 
 CHECKS["C15"] = dict(
    category="exploration", engine="B small-scope enumeration over the merged schema corpus (C01/C03/C04/C09 generators + hostile keys)",
    technique="exhaustive enumeration of all Check-accepted generated schemas; well-formedness by reference PDA + encoding/json, self-validation, compact-equality",
-   text="Every Check-accepted case of the merged generators (all rule-free schemas <= 3/4 nodes in both configs, type-reference/or/allOf/additionalProperties/key-shortcut families, 34 rule slots x 13 contexts, all fully inhabited type graphs over 1-2 types (arrays with the reference first / last) and ring/diamond families with optional/array/terminating edges, the deep family of two types with every pair of slots per object body, hostile keys and strings with every control character): Example() must succeed, be well-formed JSON, be accepted by its own schema, and equal the compact example for plain-JSON schemas.",
+   text="Every Check-accepted case of the merged generators (all rule-free schemas <= 3/4 nodes in both configs, type-reference/or/allOf/additionalProperties/key-shortcut families, 34 rule slots x 13 contexts, all fully inhabited type graphs over 1-2 types (arrays with the reference first / last) and ring/diamond families with optional/array/terminating edges, the deep family of two types with every pair of slots per object body, hostile keys and strings with every control character): Example() must succeed, be well-formed JSON, be accepted by its own schema, and equal the compact example for plain-JSON schemas. C16's rule family as input (every kind of rule value).",
    note="Trusted: reference PDA, encoding/json. Known finding (class decided by the check: a simulation of the documented cut-off policy itself yields a rejected example): recursion cut-off at required positions / first alternative gives self-rejected or empty examples.",
    design="4/C15")
 
 CHECKS["C16"] = dict(
    category="exploration", engine="B small-scope enumeration over the merged schema corpus with an expected-AST model",
    technique="exhaustive enumeration of generated schemas; structural equality of GetAST with the AST computed from the generator's abstract schema",
-   text="For every Check-accepted case of the merged generators plus an AST-specific family covering every rule name, notes, nested or/enum/allOf items, decimal/precision, value/key shortcuts with manual rules: the tree returned by GetAST (keys, shortcut flags, token kinds, literal values, schema types by the documented precedence, rules with names/values/order/nested items and manual/generated marks, notes) must equal the model tree, for the canonical spelling and for the same schema aligned with tabs; inherited allOf properties must be absent. Shortcuts that also carry a written or rule of JSON types are in the family (the synthesised type rule must stay marked generated).",
+   text="For every Check-accepted case of the merged generators plus an AST-specific family covering every rule name, notes, nested or/enum/allOf items, decimal/precision, value/key shortcuts with manual rules: the tree returned by GetAST (keys, shortcut flags, token kinds, literal values, schema types by the documented precedence, rules with names/values/order/nested items and manual/generated marks, notes) must equal the model tree, for the canonical spelling and for the same schema aligned with tabs; inherited allOf properties must be absent. Shortcuts that also carry a written or rule of JSON types are in the family (the synthesised type rule must stay marked generated). Or rules of bare type names (all 13) on examples of every JSON kind.",
    note="Trusted: ref/astmodel, whose naming conventions are calibrated on the pinned tree (the statement fixes what must be present, not the spelling of token types).",
    design="4/C16")
 
 CHECKS["C13"] = dict(
    category="exploration", engine="B small-scope enumeration x full product of spelling dimensions (metamorphic)",
    technique="exhaustive product of 324 schema spellings + notes + rule permutations over generated accepted and rejected schemas; document re-spellings x property permutations x escape spellings; reference-free equality of verdicts and ASTs",
-   text="Accepted and rejected schemas (rule slots x contexts x corruptions, construct families, rule sets on 10 node kinds, or rule-sets with every nested rule name, the AST family, every kind of rule value as first / last rule) are rendered in the full product of line end x indentation x user comments x annotation form x quoted/bare rule names x trailing comma (a # comment also follows inline annotations and notes), with notes added under the full product of line end x comments x annotation form, and in every rule order: Check's verdict, the AST with comments blanked and the verdict of 22 probe documents plus the example must equal the canonical spelling's. Probe documents are re-spelled (4 whitespace layouts x all property orders x plain / \\uXXXX / \\/ string spellings): the verdict must not change under any schema.",
+   text="Accepted and rejected schemas (rule slots x contexts x corruptions, construct families, rule sets on 10 node kinds, or rule-sets with every nested rule name, the AST family, every kind of rule value as first / last rule) are rendered in the full product of line end x indentation x user comments x annotation form x quoted/bare rule names x trailing comma (a # comment also follows inline annotations and notes), with notes added under the full product of line end x comments x annotation form, and in every rule order: Check's verdict, the AST with comments blanked and the verdict of 22 probe documents plus the example must equal the canonical spelling's. Probe documents are re-spelled (4 whitespace layouts x all property orders x plain / \\uXXXX / \\/ string spellings): the verdict must not change under any schema. Blanks inside annotations (tab, runs, none) after the opening mark, before the closing mark and as body indentation.",
    note="Reference-free. Not generated: comments inside rule objects, blanks inside empty brackets.",
    design="4/C13")
 
@@ -127,14 +127,14 @@ CHECKS["C07"] = dict(
 CHECKS["C12"] = dict(
    category="model_checking", engine="C controlled scheduler (sync shim injected by go-build overlay) + race detector as per-execution monitor",
    technique="stateless model checking of the real library: exhaustive DFS over thread schedules with a preemption bound at every sync.Once/Mutex/RWMutex/Pool operation, plus exhaustive pool-answer deviations; sequential-result oracle and happens-before race monitor on every execution",
-   text="60 closed scenarios (first use of an uncompiled shared schema by 2 threads for every pair of 7 operations and by 3 threads, 2 threads x 2 operations, 3 threads on a compiled schema, two roots sharing an added type, shared validation next to a private compile+Example, enum/regex first use, 2 and 3 goroutines each creating/compiling/using private schemas) are executed under a cooperative scheduler injected into the library by a build overlay; ALL interleavings with <= 2 preemptions (light 2-thread scenarios; 1 for scenarios containing a whole compilation or 3 threads; thorough +1) and ALL pool-answer deviations <= 2 are explored; in every execution every call must return its sequential result, every Once body must run once, no deadlock/livelock may occur and the race detector (which sees no happens-before edge from the scheduler's norace hand-off) must stay silent. S3b repeats S3 with a shared added type made of ruled literals only (none of the recorded S3 findings can cover it).",
+   text="60 closed scenarios (first use of an uncompiled shared schema by 2 threads for every pair of 7 operations and by 3 threads, 2 threads x 2 operations, 3 threads on a compiled schema, two roots sharing an added type, shared validation next to a private compile+Example, enum/regex first use, 2 and 3 goroutines each creating/compiling/using private schemas) are executed under a cooperative scheduler injected into the library by a build overlay; ALL interleavings with <= 2 preemptions (light 2-thread scenarios; 1 for scenarios containing a whole compilation or 3 threads; thorough +1) and ALL pool-answer deviations <= 2 are explored; in every execution every call must return its sequential result, every Once body must run once, no deadlock/livelock may occur and the race detector (which sees no happens-before edge from the scheduler's norace hand-off) must stay silent. S3b repeats S3 with a shared added type made of ruled literals only (none of the recorded S3 findings can cover it). S8: documents lacking required keys or holding unknown keys validated concurrently against a compiled shared schema.",
    note="Trusted: the shim scheduler (replay of a schedule is checked for divergence), the Go race detector. 2-3 goroutines, bounded preemptions. Known finding: roots sharing an added type that uses allOf corrupt it when compiled concurrently.",
    design="4/C12")
 
 CHECKS["C11"] = dict(
    category="model_checking", engine="A/D exhaustive operation histories on live objects + environment-choice exploration (pool answers, map iteration orders) through the build overlay",
    technique="exhaustive enumeration of all operation histories up to depth 3/4 over a pool of live objects against fresh-object results with returned-value snapshots; exhaustive single (thorough: double) deviations of every sync.Pool answer and of every dynamic range-over-map order",
-   text="All histories of <= 3 (thorough 4) operations from a 59-operation alphabet over live Schema/Document/Enum/Regex objects (incl. lexically broken schema and enum rule, an enum rule object shared with the schema that uses it, an embedded document with trailing text, Validate / NextLexeme on live document objects and Len/Check on consumed ones) (plus 12-fold repetitions and round-robins): every result must equal the fresh-object result and every value handed out must be unchanged at the end; for histories <= 2 every pool answer is additionally deviated (fresh / oldest object); ALL merges of the NextLexeme call sequences of two live documents must deliver each document's own events. The library is built through an overlay that rewrites every range-over-map into iteration over an explicitly ordered key list: for a corpus of scenarios (a fixed slice of the C03/C09 generators in quick, all in thorough; multi-shortcut objects, allOf chains, errors located inside added types and allOf parents) every single (thorough: pair of) dynamic iteration order deviation (descending, rotations) must leave verdict, code, position, file and renderability of errors, AST, example and used types unchanged; static sites never reached with two keys are reported as uncovered. A third alphabet: a type object that extends @base used alone (where every call fails) and through a schema that knows both.",
+   text="All histories of <= 3 (thorough 4) operations from a 59-operation alphabet over live Schema/Document/Enum/Regex objects (incl. lexically broken schema and enum rule, an enum rule object shared with the schema that uses it, an embedded document with trailing text, Validate / NextLexeme on live document objects and Len/Check on consumed ones) (plus 12-fold repetitions and round-robins): every result must equal the fresh-object result and every value handed out must be unchanged at the end; for histories <= 2 every pool answer is additionally deviated (fresh / oldest object); ALL merges of the NextLexeme call sequences of two live documents must deliver each document's own events. The library is built through an overlay that rewrites every range-over-map into iteration over an explicitly ordered key list: for a corpus of scenarios (a fixed slice of the C03/C09 generators in quick, all in thorough; multi-shortcut objects, allOf chains, errors located inside added types and allOf parents) every single (thorough: pair of) dynamic iteration order deviation (descending, rotations) must leave verdict, code, position, file and renderability of errors, AST, example and used types unchanged; static sites never reached with two keys are reported as uncovered. A third alphabet: a type object that extends @base used alone (where every call fails) and through a schema that knows both. A fourth alphabet (schemas without an example next to loads that fail half-way) and a construction-path family: every case of C16's rule family and a sample of C03's built through five constructors (string, []byte, bytes.Bytes, FromFile on both) must give identical results.",
    note="Trusted: the overlay rewrite (sound: every produced order is a legal Go order). Message text is not compared. Consumed Document objects are not re-validated.",
    design="4/C11")
 
